@@ -806,7 +806,9 @@ def run_for_property(pid, repo=None, jobs=None):
             if status == 'analysis-error':
                 broken.append('%s (behaviour-preserving) stops the analyser: %s' % (vid, info))
                 continue
-            if info != base:
+            # a known finding may be withheld (function far from its reference form: no verdict); nothing may be added
+            same = info[0] == base[0] and set(info[1]) == set(base[1]) and set(info[2]) <= set(base[2])
+            if not same:
                 diff = set(info[1]) ^ set(base[1])
                 kd = set(info[2]) ^ set(base[2])
                 broken.append('%s (behaviour-preserving) changes the report: violations %s known %s' % (vid, sorted(diff)[:3], sorted(kd)[:3]))
